@@ -134,6 +134,7 @@ PROPS = {
             dict(name="TestPersistSQLite", quick=100, thorough=6000, shards_thorough=4, shrinktime="15s"),
             dict(name="TestPersistDurable", quick=200, thorough=12000, shards_thorough=2, shrinktime="15s"),
             dict(name="TestEnumOptionOrders", quick=1, thorough=1, shards_thorough=1, rapid=False),
+            dict(name="TestAbortedPublish", quick=2500, thorough=200000, shards_thorough=8),
         ],
     ),
     "C13": dict(
